@@ -294,8 +294,8 @@ def rule_r9(facts, col, rule_id="C03.R9"):
             continue
         for bb, fld, st in c01.ring_writes(body):
             key = "%s:%s" % (body.q, fld)
-            wl = _lock_bbs(body.place_expr(st["dst"]))
-            rv = body.rvalue_expr(st["rv"])
+            wl = _lock_bbs(c01.rw_dst_expr(body, st))
+            rv = c01.rw_rv_expr(body, st)
             stale = []
             nreads = 0
             for x in walk(rv):
